@@ -338,6 +338,8 @@ pub struct Sim {
     /// files below this URI belong to a publisher of the harness, not to a CA:
     /// the relying-party walk does not expect them on a manifest
     pub foreign_publisher_base: Option<String>,
+    /// per issuer: child key -> (serial, resources) of its certificate in the issuer's state at the previous step (C02)
+    pub prev_child_certs: std::sync::Mutex<BTreeMap<String, BTreeMap<String, (String, ResourceSet)>>>,
 }
 
 #[derive(Debug)]
@@ -388,6 +390,7 @@ impl Sim {
             held_advance: 0,
             abort_check: None,
             foreign_publisher_base: None,
+            prev_child_certs: Default::default(),
         })
     }
 
